@@ -81,3 +81,35 @@ def terminal_call_sites(prog, is_target, roots, max_depth=3):
         for g, sp2, tk in ups:
             work.append((g, sp2, tk, depth + 1))
     return final
+
+
+def fieldwise_clone(prog, self_ty_prefix='context::HashMapContext<', adt_path='context::HashMapContext'):
+    """Clone for the type is the field-wise clone: either the derived impl, or a hand-written `clone` whose single path returns the
+    struct with every field taken from the same field of self (Clone::clone of a field is transparent in the domain) and that does not
+    override clone_from. Returns (ok, description)."""
+    from absint import Interp, SYM, Budget, fmt
+    from mirlib import path_endswith
+    cl = [i for i in prog.facts['impls'] if path_endswith(i.get('trait') or '', 'clone::Clone') and i['self_ty'].startswith(self_ty_prefix)]
+    if len(cl) != 1:
+        return False, '%d Clone impls' % len(cl)
+    if cl[0]['derived']:
+        return True, 'derived'
+    fs = [f for f in prog.fns if f.name in ('clone', 'clone_from') and path_endswith(f.j.get('impl_trait') or '', 'clone::Clone') and (f.j.get('impl_self_ty') or '').startswith(self_ty_prefix)]
+    if [f for f in fs if f.name == 'clone_from']:
+        return False, 'hand-written clone_from'
+    fs = [f for f in fs if f.name == 'clone']
+    if len(fs) != 1:
+        return False, 'clone not found'
+    try:
+        ps = Interp(prog).paths(fs[0], [SYM('self')])
+    except Budget:
+        return False, 'clone too complex'
+    a = prog.adt(adt_path)
+    if len(ps) != 1 or ps[0][0][0] != 'adt' or not a:
+        return False, 'clone returns %s' % [fmt(p[0])[:80] for p in ps]
+    names = [fd['name'] for fd in a['variants'][0]['fields']]
+    got = ps[0][0][4]
+    want = tuple(('proj', SYM('self'), (n,)) for n in names)
+    if tuple(got) != want:
+        return False, 'hand-written clone returns %s' % fmt(ps[0][0])[:160]
+    return True, 'hand-written, field-wise (%s)' % ', '.join(names)
